@@ -33,6 +33,7 @@ META = {
                     "tasks still running in pool threads after calculate has raised are counted as evidence only; the "
                     "verdict is on the outcome, the consultation counts and the follow-up evaluation"],
 }
+META["rule"] += '; round 7: callbacks that do not raise return None, True, False, 0, 1 or a string in turn (a return value is not a request to stop)'
 
 KS = [1, 2, 3, 4, 6, 8, 12, 24]
 BIG_KS = [1056, 1296]      # 32*33, 36*36: more sub-cubes than any chunking constant one would pick
